@@ -28,7 +28,8 @@ def r1(ctx):
     # ---- request line
     f = ctx.fn(repo.func(MSG + ".Request.read_line"))
     g = f.cfg
-    LIM = f.params[3]
+    # the limit is a parameter the callers fill with the configured value, or the configured attribute read on the spot
+    LIM = next((p_ for p_ in f.params[1:] if "limit" in p_), None) or "self.limit_request_line"
     reads = [n for c in walk_own(f.node) if is_read_call(repo, f, c) for n in nodes_with(f, c)]
     ctx.need(reads, "C12.R1: read_line never reads")
 
@@ -56,7 +57,11 @@ def r1(ctx):
     # call sites pass self.limit_request_line
     fp = ctx.fn(repo.func(MSG + ".Request.parse"))
     for c in method_calls(fp, "read_line"):
-        ctx.check("C12.R1", len(c.args) >= 3 and tail(c.args[2]) == "limit_request_line", key(fp, "passes-limit"), site(fp, c), "read_line is called without the configured request-line limit", "limit passed")
+        if LIM.startswith("self."):
+            ctx.ok("C12.R1", site(fp, c), "read_line reads the configured limit itself")
+            continue
+        passed = [a for a in c.args[2:3]] + [k.value for k in c.keywords if k.arg == LIM]
+        ctx.check("C12.R1", bool(passed) and tail(passed[0]) == "limit_request_line", key(fp, "passes-limit"), site(fp, c), "read_line is called without the configured request-line limit", "limit passed")
     clamps(ctx, "C12.R1")
     # ---- field count and field size: evaluated on header blocks around the limits (fields that are dropped by the
     # underscore policy count and are measured too; continuation lines add to the field's size; 0 = unlimited size)
